@@ -92,7 +92,7 @@ def gen_plan(seed, tier="quick"):
                                     "frames": [[24, (b0 << 16) | (b1 << 8) | e.randrange(256)]], "answer": None})
         plan["traffic"].sort(key=lambda t: t["t_us"])
     _unique_outs(r, plan)
-    if driver == "tridonic":
+    if True:                                   # a second gateway of the same kind with its own driver object
         z = plans.rng_for(seed, PROP + "-line-b")
         if z.random() < 0.15:
             plan["second_line"] = plans.gen_second_line(z)
